@@ -2,8 +2,8 @@
 
 Tie A (mechanism): the model front end (resolver + compiler of Model/Scope.lean) against the real
 compiler: per finished function the sequence of scope-relevant instructions (Get/Set Local/Box/
-Capture/ModSym, Box/EmptyBox/FillBox, Closure + CaptureIndex operands, function constants) read off
-the `PRE` stream of `vharness dump`.
+Capture/ModSym, Box/EmptyBox/FillBox, Nil — the value of a declaration without initialiser —, Closure +
+CaptureIndex operands, function constants) read off the `PRE` stream of `vharness dump`.
 Tie B (semantics): the same programs executed by the VM against (i) the Lean Spec interpreter with
 cell environments (implementation-vs-Spec) and (ii) the Lean slot/box/capture machine run on the
 model's access paths (model-vs-implementation).
@@ -12,6 +12,7 @@ import copy
 import json
 import os
 import random
+import re
 import shutil
 import tempfile
 
@@ -21,6 +22,8 @@ from . import c02gen
 PROP = "C02"
 LEVEL = "proof"
 DRV = os.path.join(common.LEAN, ".lake", "build", "bin", "drv_scope")
+
+LETN_RE = re.compile(r"^\s*let \w+;$", re.M)
 
 OPMAP = {"GetLocal": "GL", "SetLocal": "SL", "GetBox": "GB", "SetBox": "SB", "GetCapture": "GC", "SetCapture": "SC",
          "GetModSym": "GM", "SetModSym": "SM", "Box": "BX"}
@@ -47,6 +50,8 @@ def impl_events(rec):
             out.append("EB")
         elif op == "FillBox":
             out.append("FB")
+        elif op == "Nil":
+            out.append("NL")
         elif op == "Closure":
             caps = []
             while i + 1 < len(pre) and pre[i + 1].startswith("CaptureIndex"):
@@ -133,7 +138,7 @@ class Case:
         self.prog, self.features, self.origin = prog, set(features), origin
 
 
-def evaluate(progs, workdir, tag="c"):
+def evaluate(progs, workdir, tag="c", steps=3000000):
     """Returns a list of verdict dicts, one per program."""
     files, sexps = [], []
     for i, p in enumerate(progs):
@@ -144,7 +149,7 @@ def evaluate(progs, workdir, tag="c"):
         sexps.append(c02gen.sexp(p))
     model, rc, err = model_answers(sexps)
     front = impl_front_end(files)
-    runs = common.run_batch(["--steps 3000000 " + f for f in files], timeout=600)
+    runs = common.run_batch(["--steps %d " % steps + f for f in files], timeout=600)
     out = []
     for i, p in enumerate(progs):
         m = model[i] if i < len(model) else {}
@@ -263,38 +268,77 @@ def to_mutable(n):
     return n
 
 
-def shrink(prog, kind, workdir, budget=400):
-    """Greedy deletion of statements while the same kind of failure persists."""
+def shrink_apply(cur, cands):
+    """`cur` with the candidates applied: ('del', li, si) deletes statement si of statement list li, ('unwrap', li, si, pos)
+    replaces an `if` by the statements of its then/else block.  Positions refer to `stmt_lists(cur)`."""
+    c = copy.deepcopy(cur)
+    lists = stmt_lists(c, [])
+    dead, repl = set(), {}
+    for cand in cands:
+        st = lists[cand[1]][cand[2]]
+        if cand[0] == "del":
+            dead.add(id(st))
+        else:
+            repl[id(st)] = st[cand[3]]
+    for l in lists:
+        out = []
+        for st in l:
+            if id(st) in dead:
+                continue
+            if id(st) in repl:
+                out.extend(repl[id(st)])
+            else:
+                out.append(st)
+        l[:] = out
+    return c
+
+
+SHRINK_STEPS = 300000
+
+
+def is_counter_update(st):
+    """`iN = iN + 1;` — the generator's loop counters are named i1, i2, …"""
+    return (isinstance(st, tuple) and len(st) == 3 and st[0] == "op" and st[1] == "exprS" and st[2] and
+            isinstance(st[2][0], tuple) and st[2][0][0] == "assign" and re.fullmatch(r"i\d+", str(st[2][0][2])) is not None)
+
+
+def shrink(prog, kind, workdir, budget=6000, rounds=30):
+    """Deletion of statements (and unwrapping of `if` blocks) while the same kind of failure persists.  Every round
+    evaluates all single steps in one batch and then tries to take all the successful deletions together (halving on
+    interference), so the number of rounds — each a handful of process start-ups — stays small."""
     cur = to_mutable(prog)
-    changed = True
     spent = 0
-    while changed and spent < budget:
-        changed = False
+    for _ in range(rounds):
         lists = stmt_lists(cur, [])
         cands = []
         for li, l in enumerate(lists):
-            for si in range(len(l)):
-                cands.append((li, si))
-        # try candidates in batches: evaluate all single deletions, take the first that still fails
-        progs = []
-        for li, si in cands:
-            c = copy.deepcopy(cur)
-            l = stmt_lists(c, [])[li]
-            if l and isinstance(l[si], tuple) and l[si][0] == "method":
-                progs.append(None)
-                continue
-            del l[si]
-            progs.append(c)
-        idx = [i for i, p in enumerate(progs) if p is not None]
-        if not idx:
+            for si, st in enumerate(l):
+                if isinstance(st, tuple) and st and st[0] == "method":
+                    continue
+                if is_counter_update(st):
+                    continue        # a `while` without its `i = i + 1` runs (and allocates) until the step limit
+                cands.append(("del", li, si))
+                if isinstance(st, tuple) and st and st[0] == "if":
+                    cands.append(("unwrap", li, si, 2))
+                    cands.append(("unwrap", li, si, 3))
+        if not cands or spent >= budget:
             break
-        res = evaluate([progs[i] for i in idx], workdir, tag="s")
-        spent += len(idx)
-        for j, v in enumerate(res):
-            if v["judgement"]["kind"] == kind:
-                cur = progs[idx[j]]
-                changed = True
+        res = evaluate([shrink_apply(cur, [c]) for c in cands], workdir, tag="s", steps=SHRINK_STEPS)
+        spent += len(cands)
+        good = [c for c, v in zip(cands, res) if v["judgement"]["kind"] == kind]
+        if not good:
+            break
+        dels = [c for c in good if c[0] == "del"]
+        step = None
+        group = dels
+        while len(group) > 1:
+            cand = shrink_apply(cur, group)
+            spent += 1
+            if evaluate([cand], workdir, tag="t", steps=SHRINK_STEPS)[0]["judgement"]["kind"] == kind:
+                step = cand
                 break
+            group = group[:len(group) // 2]
+        cur = step if step is not None else shrink_apply(cur, [good[0]])
     return cur
 
 
@@ -327,6 +371,14 @@ class B:
     def let(self, x, e):
         self.d += 1
         return ("let", self.d, x, e)
+
+    def letn(self, x):
+        """`let x;`"""
+        self.d += 1
+        return ("letn", self.d, x)
+
+    def isnil(self, x):
+        return ("op", "eq", [self.v(x), ("nil",)])
 
     def lam(self, params, body):
         self.d += 1
@@ -459,6 +511,22 @@ def dedup_enclosing_many_uses():
             b.let("h", b.call(b.v("a"))), b.pr(b.call(b.v("h"))), b.pr(b.call(b.v("h")))]
 
 
+@scen
+def let_without_initialiser_every_storage_class():
+    # `let x;` as a module symbol, a plain local, a boxed local read through a closure two functions down (an `Enclosing`
+    # hop) before anything was assigned, and a block-scoped one that starts out nil again on every call
+    b = B()
+    deep = b.lam([], [b.ret(b.lam([], [("if", b.isnil("q"), [b.set("q", ("lit", 1))], [b.set("q", b.add(b.v("q"), ("lit", 1)))]), b.ret(b.v("q"))]))])
+    f = b.fn("f", [], [b.letn("p"), b.letn("q"), b.let("mk", deep), b.pr(b.v("p")), b.pr(b.v("q")),
+                       b.let("bump", b.call(b.v("mk"))), b.pr(b.call(b.v("bump"))), b.pr(b.call(b.v("bump"))), b.pr(b.v("q")),
+                       ("if", b.isnil("p"), [b.letn("t"), b.let("rd", b.lam([], [b.ret(b.v("t"))])), b.pr(b.call(b.v("rd"))),
+                                              b.set("t", ("lit", 5)), b.pr(b.call(b.v("rd")))], []),
+                       b.ret(b.v("p"))])
+    return [b.letn("m"), f, b.pr(b.v("m")), b.pr(b.call(b.v("f"))), b.pr(b.call(b.v("f"))),
+            b.fn("setm", [], [("if", b.isnil("m"), [b.set("m", ("lit", 3))], []), b.ret(b.v("m"))]),
+            b.pr(b.call(b.v("setm"))), b.pr(b.v("m"))]
+
+
 # ---------------------------------------------------------------------------------------------
 # known findings of this property
 
@@ -547,8 +615,13 @@ def run_stream(ctx, cases, workdir, stream):
             dd = c02gen.fun_depth(c.prog)
             depth_hist[dd] = depth_hist.get(dd, 0) + 1
             for tok, name in (("GC ", "capture_reads"), ("SC ", "capture_writes"), ("GB ", "box_reads"), ("SB ", "box_writes"),
-                              ("CL ", "closures"), ("EB", "empty_boxes"), ("BX ", "boxed_params"), (" E", "enclosing_hops")):
+                              ("CL ", "closures"), ("EB", "empty_boxes"), ("BX ", "boxed_params"), (" E", "enclosing_hops"),
+                              # `Nil` as the first value of a boxed local (`let x;`, captured for-item) or of a module symbol (`let x;`)
+                              ("EB;NL;FB", "boxes_initialised_with_nil"), ("NL;SM ", "module_symbols_initialised_with_nil")):
                 stats[name] = stats.get(name, 0) + v["model"].get("P", "").count(tok)
+            src = v["src"]
+            stats["lets_without_initialiser"] = stats.get("lets_without_initialiser", 0) + len(LETN_RE.findall(src))
+            stats["nil_lines_printed"] = stats.get("nil_lines_printed", 0) + v["impl_run"]["stdout"].split("\n").count("nil")
         elif k == "skip":
             if v["judgement"]["what"].startswith("Spec undefined"):
                 stats["skipped_spec_undefined"] += 1
@@ -576,7 +649,8 @@ def run(ctx):
                                         "output": out_c[-3000:]}, no_input=True)
         return
     ctx.cov["rule"] = ("generated Laythe programs of the scoping fragment (function nesting <= 5, shadowing, any capture subset, loops, "
-                       "catch variables, self, module names); evaluations = programs accepted by both front ends whose run the Spec defines; "
+                       "catch variables, self, module names, declarations without initialiser in every storage class observed by print / == nil "
+                       "from the declaring scope and through closures); evaluations = programs accepted by both front ends whose run the Spec defines; "
                        "non-trivial = the compiled program contains at least one box/capture access or closure; distinct by program text")
     workdir = tempfile.mkdtemp(prefix="c02_")
     try:
@@ -593,11 +667,13 @@ def run(ctx):
         # corpus + scenarios first
         pre = []
         corpus = os.path.join(common.VERIF, "corpus", PROP)
-        if os.path.isdir(corpus):
+        # C02_NO_CORPUS=1: skip the stored inputs and the hand-written scenarios (to see what the generated stream finds by itself)
+        no_corpus = os.environ.get("C02_NO_CORPUS") == "1"
+        if os.path.isdir(corpus) and not no_corpus:
             for f in sorted(os.listdir(corpus)):
                 if f.endswith(".json"):
                     pre.append(Case(to_mutable(json.load(open(os.path.join(corpus, f)))["program"]), origin="corpus/" + f))
-        for s in SCENARIOS:
+        for s in ([] if no_corpus else SCENARIOS):
             pre.append(Case(s(), features={"scenario:" + s.__name__}, origin="scenario:" + s.__name__))
         if not run_stream(ctx, pre, workdir, "scenarios"):
             return
@@ -630,7 +706,7 @@ def run(ctx):
         shutil.rmtree(workdir, ignore_errors=True)
     ctx.assumptions += [
         "Model/Scope.lean (resolver, compiler) and Model/ScopeMachine.lean are hand-written; their agreement with the Rust code is checked on the generated programs (access paths, capture lists, box instructions per function; program output), not proved",
-        "the Spec interpreter (Model/ScopeSpec.lean) is the executable statement of the property for the fragment: integers, let/assign/lambda/fn/call/if/while/for-over-list/print, lists of closures, try/catch of Error, classes with fields and methods",
+        "the Spec interpreter (Model/ScopeSpec.lean) is the executable statement of the property for the fragment: integers and nil, let with and without initialiser/assign/lambda/fn/call/if/while/for-over-list/print/== (values of different kinds are unequal), lists of closures, try/catch of Error, classes with fields and methods; `return;` without a value is outside the fragment",
         "generators stay outside the signatures of D1, D2 and of this property's finding D32 (closure over self inside init); for-iterables that mention an outer variable named like the item, directly or from a function literal (the shape of the repaired finding D31), are generated and judged by the Spec",
         "C02_env_simulation (Spec interpreter = machine on every accepted program) is stated, not proved; it is checked on every generated program",
     ]
